@@ -9,11 +9,22 @@
       select/poll on the connection's socket for what event_loop_info says;
       call_handlers (readiness);
     }
-  `con->suspended` is cleared by the daemon thread (resume_suspended_connections), which is woken by
-  the ITC byte MHD_resume_connection writes; here that is the field `wh` changing from `susp` to
-  `active` between two iterations.  Whether the bracketed re-check exists is the regenerated
-  `Mhd.Gen.Loop.tpcRechecksSuspend`.  Windows ITC handling, TLS read-ahead, upgrade and the exit
-  path are not modelled.
+  `con->suspended` is set by the connection's own thread (MHD_suspend_connection is called from a
+  callback) and cleared by the daemon thread (resume_suspended_connections), which is woken by the
+  ITC byte MHD_resume_connection writes; here that is the field `wh` changing from `susp` to
+  `active` between two iterations (`tpcResumed`).  Two facts about the source text are parameters:
+
+  * `recheck` — the bracketed re-check after the post-resume idle call exists
+    (regenerated `Mhd.Gen.Loop.tpcRechecksSuspend`);
+  * `early`   — the thread remembers a suspension at the moment its own handler suspends the
+    connection, not only when it later finds `con->suspended` still set at the loop head
+    (regenerated `Mhd.Gen.Loop.tpcMarksSuspend`).  Without it a resume that the daemon thread
+    processes before the connection's thread is back at the loop head goes unnoticed.
+
+  Granularity: one iteration (blocking call returned → handlers → loop head → next blocking call)
+  is atomic with respect to the daemon thread; `tpcResumed` happens between iterations, in
+  particular right after the iteration in which the handler suspended.  Windows ITC handling, TLS
+  read-ahead, upgrade, daemon shutdown and poll()/select() errors are not modelled.
 -/
 import Mhd.Model.LoopRounds
 
@@ -54,34 +65,45 @@ def socketWait (c : Conn W) : Option TBlock :=
   | .process => some { wait := wait, onItc := false, r := false, w := false, e := true }
   | .cleanup => none        -- "how did we get here!?": goto exit
 
+/-- the loop condition finds the connection closed.  If the last handle_idle already moved it to the cleanup list
+    (call_handlers returned MHD_NO: `goto exit`) nothing more is called; otherwise the thread falls out of the loop
+    and runs MHD_connection_handle_idle once more, which cleans up. -/
+def tpcExit (ops : Ops W) (t : TState W) : TState W × Option TBlock :=
+  if t.wh = .cleanup then (t, none)
+  else
+    let s := doIdle ops false { c := t.c, wh := t.wh, evs := [] }
+    ({ t with c := s.c, wh := s.wh, log := s.evs ++ t.log }, none)
+
 /-- from the loop head to the blocking call; `none` = the thread leaves the loop -/
-def tpcHeadWith (ops : Ops W) (recheck : Bool) (t : TState W) : TState W × Option TBlock :=
-  if t.c.loc.st = stClosed then (t, none)
+def tpcHeadWith (ops : Ops W) (recheck early : Bool) (t : TState W) : TState W × Option TBlock :=
+  if t.c.loc.st = stClosed then tpcExit ops t
   else if t.wh = .susp then ({ t with wasSuspended := true }, some suspendedWait)
   else if t.wasSuspended then
     let s := doIdle ops false { c := t.c, wh := t.wh, evs := [] }
-    let t1 : TState W := { c := s.c, wh := s.wh, wasSuspended := false, log := s.evs ++ t.log }
+    let t1 : TState W := { c := s.c, wh := s.wh, wasSuspended := early && s.wh = .susp, log := s.evs ++ t.log }
     if recheck && t1.wh = .susp then
       -- `continue`: loop condition, then the suspended branch
-      if t1.c.loc.st = stClosed then (t1, none) else ({ t1 with wasSuspended := true }, some suspendedWait)
+      if t1.c.loc.st = stClosed then tpcExit ops t1 else ({ t1 with wasSuspended := true }, some suspendedWait)
     else (t1, socketWait t1.c)
   else (t, socketWait t.c)
 
 /-- the rest of the iteration once the blocking call returned with this readiness of the socket -/
-def tpcTail (ops : Ops W) (t : TState W) (b : TBlock) (rr wr er : Bool) : TState W :=
+def tpcTailWith (ops : Ops W) (early : Bool) (t : TState W) (b : TBlock) (rr wr er : Bool) : TState W :=
   if b.onItc then t       -- `continue; /* Check again for resume. */`
   else
     let r := chLocal ops false t.c t.wh rr wr er
-    { t with c := r.c, wh := r.wh, log := r.evs ++ t.log }
+    { t with c := r.c, wh := r.wh, wasSuspended := t.wasSuspended || (early && r.wh = .susp), log := r.evs ++ t.log }
 
 /-- one iteration of the thread loop; `none` = the thread has left the loop -/
-def tpcIterWith (ops : Ops W) (recheck : Bool) (t : TState W) (rr wr er : Bool) : Option (TState W) :=
-  match tpcHeadWith ops recheck t with
+def tpcIterWith (ops : Ops W) (recheck early : Bool) (t : TState W) (rr wr er : Bool) : Option (TState W) :=
+  match tpcHeadWith ops recheck early t with
   | (_, none) => none
-  | (t1, some b) => some (tpcTail ops t1 b rr wr er)
+  | (t1, some b) => some (tpcTailWith ops early t1 b rr wr er)
 
-def tpcHead (ops : Ops W) (t : TState W) : TState W × Option TBlock := tpcHeadWith ops tpcRechecksSuspend t
-def tpcIter (ops : Ops W) (t : TState W) (rr wr er : Bool) : Option (TState W) := tpcIterWith ops tpcRechecksSuspend t rr wr er
+def tpcHead (ops : Ops W) (t : TState W) : TState W × Option TBlock := tpcHeadWith ops tpcRechecksSuspend tpcMarksSuspend t
+def tpcTail (ops : Ops W) (t : TState W) (b : TBlock) (rr wr er : Bool) : TState W := tpcTailWith ops tpcMarksSuspend t b rr wr er
+def tpcIter (ops : Ops W) (t : TState W) (rr wr er : Bool) : Option (TState W) :=
+  tpcIterWith ops tpcRechecksSuspend tpcMarksSuspend t rr wr er
 
 /-- the daemon thread processed MHD_resume_connection for this connection -/
 def tpcResumed (t : TState W) : TState W := if t.wh = .susp then { t with wh := .active } else t
